@@ -494,6 +494,7 @@ pub fn gen(r: &mut Rng, cases: usize, size: usize, extra: &[String], out: &mut O
                 let mode = ["naive", "hybrid", "biodivine"][r.usize(3)];
                 out.line(&format!("clideep neg {} {mode}", r.range(50, 400)));
                 out.line(&format!("clideep and {} {mode}", r.range(50, 300)));
+                out.line(&format!("clideep wide {} {mode}", r.range(100, 1500)));
                 if case == 0 {
                     out.line("clideep neg 100000 naive");
                     out.line("clideep and 100000 biodivine");
@@ -575,6 +576,7 @@ pub fn gen(r: &mut Rng, cases: usize, size: usize, extra: &[String], out: &mut O
                     out.line("clideep and 300 hybrid");
                     out.line("clideep neg 100000 naive");
                     out.line("clideep and 100000 biodivine");
+                    out.line("clideep wide 1500 naive");
                     // probe of the recorded finding D6 (quoted label with a character biodivine rejects)
                     out.line("cliq hybrid");
                     out.line("cliq biodivine");
@@ -939,7 +941,28 @@ impl Exec {
                 out.line(l);
                 out.flush();
                 let depth: usize = ws[2].parse().unwrap_or(0);
+                fn bal(lo: usize, hi: usize) -> String {
+                    if hi - lo == 1 {
+                        format!("x{lo}")
+                    } else {
+                        let m = (lo + hi) / 2;
+                        format!("and({},{})", bal(lo, m), bal(m, hi))
+                    }
+                }
                 let text = match ws[1] {
+                    // `depth` statements, x0 <- balanced conjunction of all others (nesting depth ~ log),
+                    // all others facts: a diagram with `depth - 1` LEVELS; everything is true
+                    "wide" if depth >= 2 => {
+                        let mut t = String::new();
+                        for i in 0..depth {
+                            t += &format!("s(x{i}).");
+                        }
+                        t += &format!("ac(x0,{}).", bal(1, depth));
+                        for i in 1..depth {
+                            t += &format!("ac(x{i},c(v)).");
+                        }
+                        t
+                    }
                     "neg" => format!("s(a).ac(a,{}a{}).", "neg(".repeat(depth), ")".repeat(depth)),
                     _ => format!("s(a).s(b).ac(b,c(v)).ac(a,{}a{}).", "and(b,".repeat(depth), ")".repeat(depth)),
                 };
@@ -947,7 +970,13 @@ impl Exec {
                 let _ = std::fs::write(&file, text);
                 let (code, stdout) = run_cli(&["--lib", ws[3], "--grd", file.to_str().unwrap_or("")]);
                 let _ = std::fs::remove_file(&file);
-                out.line(&format!("~ exit={code} {}", stdout.trim_end().replace(' ', "_")));
+                if ws[1] == "wide" {
+                    let toks: Vec<&str> = stdout.split_whitespace().collect();
+                    let all_t = toks.iter().all(|t| t.starts_with("T("));
+                    out.line(&format!("~ exit={code} statements={} all-true={}", toks.len(), all_t as u8));
+                } else {
+                    out.line(&format!("~ exit={code} {}", stdout.trim_end().replace(' ', "_")));
+                }
                 out.line(&format!("# case adf deep={depth} shape={}", ws[1]));
                 true
             }
